@@ -15,5 +15,6 @@ CONSTANTS
   ShortIO = FALSE
   DeadlineCheck = TRUE
   CloseBeforeSend = FALSE
+  ClearOnErr = TRUE
 INVARIANT NoViolation EnvOk
 CONSTRAINT Bound
